@@ -129,7 +129,8 @@ def st_mod(base):
             lambda t: {"kind": "pre_option", "step": t[0], "name": t[1], "value": t[2]}))
     # --- representation variants (must NOT change the hash)
     mods.append(st.sampled_from(["range_tuple", "ints_as_floats", "floats_as_ints", "segment_name", "bool_as_int",
-                                 "kws_order", "options_order", "copy_params", "pre_tuple"]).map(
+                                 "kws_order", "options_order", "copy_params", "pre_tuple", "param_fit_byproducts", "int_range",
+                                 "int_range"]).map(
         lambda v: {"kind": "representation", "variant": v}))
     # --- documented don't-cares
     if cfg["optimal_fit_edelta"]:
@@ -225,6 +226,11 @@ def build(base, mod=None, fit=False):
         pi[twin["what"].split("_fixed")[0]].set(vary=False)
     if twin.get("kind") == "tiny" and twin["what"] == "weight_cp" and not kw["weight_cp"]:
         kw["weight_cp"] = 5e-7
+    if twin.get("kind") == "representation" and twin.get("variant") == "int_range":
+        # an interval (in metres) that covers every curve, given with integer-valued bounds
+        kw.update(range_x=[-1.0, 1.0], range_type="absolute")
+        if kind == "representation":
+            kw["range_x"] = [-1, 1]
     if twin.get("kind") == "range_equal":
         kw.update(optimal_fit_edelta=True, range_type="absolute", segment=0,
                   range_x=[twin["u"] * curve["z0"], twin["u"] * curve["z0"]])
@@ -303,6 +309,15 @@ def build(base, mod=None, fit=False):
             kw["method_kws"] = dict(reversed(list(kw["method_kws"].items())))
         elif variant == "copy_params":
             pi = copy.deepcopy(pi)
+        elif variant == "param_fit_byproducts":
+            # the same settings on Parameter objects that went through a fit (stderr, correl, init_value are results)
+            pi = copy.deepcopy(pi)
+            for n_, par in pi.items():
+                par.stderr = 1.2345
+                par.correl = {"E": 0.5}
+                par.init_value = 42.0
+        elif variant == "int_range":
+            kw["range_x"] = [-1, 1]
     kw["params_initial"] = pi
     return idnt, kw
 
